@@ -4,6 +4,7 @@ import ast
 import z3
 
 from pyvc import values as vv
+from pyvc.values import VSeq
 from pyvc.values import (Val, V, VNone, NONE, VBool, VInt, VFloat, VStr, VBytes, VEnum, VRef, VVal, VTuple,
                          VClass, VCallable, VOpaque, VFunc, VBuiltin, VModule, VSuper, Raised, Unsupported,
                          fresh, Kind, parse_kind)
@@ -59,8 +60,10 @@ class SpecMixin(object):
       if p == '*':
         for key in list(st.heap):
           st.heap[key] = fresh('H_%s_%s' % key, st.heap[key].sort())
+        st.epoch = (st.epoch[0] + 1, st.epoch[1])
         continue
       if p == '*user':
+        st.epoch = (st.epoch[0], st.epoch[1] + 1)
         # arbitrary user code: everything except the framework-private fields (frame assumption) and fresh objects
         from pyvc.opaque import havoc_preexisting
         havoc_preexisting(self, st, keep=self.ctx.registry.private_fields)
@@ -171,6 +174,8 @@ class SpecMixin(object):
     for g, v in list(st.ghost.items()):
       if isinstance(g, str) and not g.startswith('$') and not g.startswith('CONF.') and isinstance(v, VInt):
         st.ghost[g] = VInt(fresh('hv_ghost_' + g, z3.IntSort()))
+      elif isinstance(g, str) and isinstance(v, VSeq):
+        st.ghost[g] = VSeq(fresh('hv_ghost_' + g, v.t.sort()))
 
   def for_with_invariant(self, st, stmt, it, spec):
     label = self.loop_key(stmt)
@@ -192,6 +197,7 @@ class SpecMixin(object):
     # --- body
     b = h.fork()
     b.assume(i < n)
+    b.ghost['$trace'] = ()
     # an iterable that may fail while it is being consumed (e.g. a serializer generator raising after k chunks)
     fail_at = None
     if isinstance(seq, VRef) and self.oid_of(seq) is not None:
